@@ -448,10 +448,17 @@ func (sp *spec) eval(asg []int, order [2]int, ws *wstate, cl *collector) {
 
 	// truncation: every strict prefix
 	r := sp.receiver(m)
+	skip, kept := sp.sparseSkip(asg, enc)
+	if skip != nil {
+		ws.hist["size-boundary value (>= 64 KiB element): prefix walks leave out the interior of the large opaque elements"]++
+	}
 	if sp.strictPrefix || len(enc) <= observedPrefixLimit {
 		acc := 0
 		firstAcc := -1
 		for n := 0; n < len(enc); n++ {
+			if skip != nil && skip[n] {
+				continue
+			}
 			var pok bool
 			if p, msg, site := ev.Try(func() { pok = tls.VerifC30Unmarshal(r, enc[:n:n]) }); p {
 				viol("unmarshal panics on a strict prefix @"+site+": "+ev.MsgClass(msg), msg, n, nil)
@@ -464,18 +471,18 @@ func (sp *spec) eval(asg []int, order [2]int, ws *wstate, cl *collector) {
 				}
 			}
 		}
-		ws.transitions += int64(len(enc))
-		ws.evaluations += int64(len(enc))
-		ts.Prefixes += int64(len(enc))
+		ws.transitions += int64(kept)
+		ws.evaluations += int64(kept)
+		ts.Prefixes += int64(kept)
 		ts.PrefixAccepted += int64(acc)
 		if sp.strictPrefix {
-			ws.hist["strict type: prefix rejected"] += int64(len(enc) - acc)
+			ws.hist["strict type: prefix rejected"] += int64(kept - acc)
 			if acc > 0 {
 				ws.hist["strict type: prefix ACCEPTED"] += int64(acc)
-				viol("strict prefix of a valid encoding accepted", fmt.Sprintf("%d of %d strict prefixes accepted, shortest %d bytes", acc, len(enc), firstAcc), firstAcc, nil)
+				viol("strict prefix of a valid encoding accepted", fmt.Sprintf("%d of %d strict prefixes accepted, shortest %d bytes", acc, kept, firstAcc), firstAcc, nil)
 			}
 		} else {
-			ws.hist["optional-tail type: prefix rejected"] += int64(len(enc) - acc)
+			ws.hist["optional-tail type: prefix rejected"] += int64(kept - acc)
 			ws.hist["optional-tail type: prefix accepted (allowed)"] += int64(acc)
 		}
 	} else {
@@ -492,7 +499,12 @@ func (sp *spec) eval(asg []int, order [2]int, ws *wstate, cl *collector) {
 			kind = "strict type"
 		}
 		var rej, accValid, accInvalid int64
+		var tried int64
 		for n := 4; n < len(enc); n++ {
+			if skip != nil && skip[n] {
+				continue
+			}
+			tried++
 			l := n - 4
 			buf[1], buf[2], buf[3] = byte(l>>16), byte(l>>8), byte(l)
 			var pok bool
@@ -529,7 +541,6 @@ func (sp *spec) eval(asg []int, order [2]int, ws *wstate, cl *collector) {
 						l, len(enc)-4, l, len(re), hex.EncodeToString(head(re, 80))), n, nil)
 			}
 		}
-		tried := int64(len(enc) - 4)
 		ws.transitions += tried
 		ws.evaluations += tried
 		ts.HdrPrefixes += tried
@@ -573,6 +584,56 @@ func (sp *spec) eval(asg []int, order [2]int, ws *wstate, cl *collector) {
 			ws.hist["optional-tail type: extension rejected"]++
 		}
 	}
+}
+
+// sparseSkip: for a value built from `sparse` (size-boundary, >= 64 KiB) alternatives, the cut points that the
+// prefix walks leave out: those strictly inside the interior of one of the large opaque elements of those
+// alternatives (more than 2 bytes after its first byte and more than 2 bytes before its end) and not among the
+// last 8 bytes of the encoding. Every length field of the encoding lies outside the opaque elements, so every
+// cut within 2 bytes of a length field is still made. nil: nothing is left out.
+func (sp *spec) sparseSkip(asg []int, enc []byte) (skip []bool, kept int) {
+	var elems [][]byte
+	for si, ai := range asg {
+		al := &sp.slots[si].alts[ai]
+		if !al.sparse {
+			continue
+		}
+		for _, kv := range al.set {
+			switch v := kv.val.(type) {
+			case []byte:
+				elems = append(elems, v)
+			case [][]byte:
+				elems = append(elems, v...)
+			}
+		}
+	}
+	from := 0
+	for _, e := range elems {
+		if len(e) < 1024 {
+			continue
+		}
+		i := bytes.Index(enc[from:], e)
+		if i < 0 {
+			return nil, len(enc) // not found as one block: walk everything
+		}
+		s, end := from+i, from+i+len(e)
+		if skip == nil {
+			skip = make([]bool, len(enc)+1)
+		}
+		for n := s + 3; n < end-2 && n < len(enc)-8; n++ {
+			skip[n] = true
+		}
+		from = end
+	}
+	if skip == nil {
+		return nil, len(enc)
+	}
+	for n := 0; n < len(enc); n++ {
+		if !skip[n] {
+			kept++
+		}
+	}
+	return skip, kept
 }
 
 func head(b []byte, n int) []byte {
@@ -760,7 +821,7 @@ func main() {
 			"(d=3 quick, 4 thorough; full Cartesian product when it has <= 5000 (quick) / 200000 (thorough) values) plus one all-slots-non-default corner per type; " +
 			"a value is non-trivial/distinct when it is in-domain (or RFC-borderline and tolerated) and round-trips: only those get the walks: (1) every strict prefix enc[:n] as is; " +
 			"(2) for the 18 handshake-message types, every strict prefix of the BODY with the 24-bit header length rewritten to the cut length (n = 4..len-1), so that codecs that check the header first still parse a cut body; " +
-			"(3) enc plus trailing bytes")
+			"(3) enc plus trailing bytes. Size boundaries of the 24-bit length fields INSIDE a body (certificate_list and ASN.1Cert lengths of certificateMsg, certificateMsgTLS13, sessionState, sessionStateTLS13; the OCSP response length of certificateStatusMsg): with L in {65535..65539, 131071..131073} (a uint24 carries into its top byte at 2^16 and 2^17) the opaque element sizes are chosen so that EACH of the nested lengths (element, list, handshake header) takes EACH value of L, with one element and with two elements (first element 30000 bytes, or exactly 2^16 bytes in the 2^17 range); these values get round trip, re-marshal, determinism and the three walks like every other value, the prefix walks leaving out only the cut points inside the interior of the >= 1 KiB opaque elements (more than 2 bytes from either end of the element and not among the last 8 bytes): every cut within 2 bytes of any length field is made")
 		c.Assume(
 			"value domain = what the TLS wire format (RFC 5246/5077/6066/7301/8446, draft extended-random) can represent; couplings taken from the constraints of the quick.Generators in tls/handshake_messages_test.go",
 			"fields that neither codec direction touches are not part of the encoded value and stay zero: raw (cache), serverKeyExchangeMsg.digest, clientHelloMsg.sctEnabled, clientHelloMsg.unknownExtensions (declared TODO), Certificate.{PrivateKey,SupportedSignatureAlgorithms,Leaf}. For the three named message fields this is checked in every run (setting the field does not change marshal's output, unmarshal leaves it zero), and every other field of every type must be driven by a slot: otherwise the run is marked incomplete",
